@@ -211,10 +211,29 @@ func (s *Service) Message(ctx context.Context, duty *synccommitteemessenger.Duty
 		return msgs, nil
 	}
 
-	sigs, err := s.contributions(ctx, accounts, s.chainTimeService.SlotToEpoch(duty.Slot()), *beaconBlockRoot)
+	// Only request signatures for the accounts that we hold; a nil entry would fail the whole batch.
+	signingAccounts := make([]e2wtypes.Account, 0, countActive)
+	for _, account := range accounts {
+		if account != nil {
+			signingAccounts = append(signingAccounts, account)
+		}
+	}
+	signingSigs, err := s.contributions(ctx, signingAccounts, s.chainTimeService.SlotToEpoch(duty.Slot()), *beaconBlockRoot)
 	if err != nil {
 		s.log.Error().Err(err).Msg("Failed to sign sync committee messages")
 		return nil, errors.Wrap(err, "failed to sign sync committee messages")
+	}
+	if len(signingSigs) != len(signingAccounts) {
+		return nil, errors.New("failed to sign sync committee messages; incorrect number of signatures")
+	}
+	// Map the signatures back to the position of their account.
+	sigs := make([]phase0.BLSSignature, len(accounts))
+	signed := 0
+	for i, account := range accounts {
+		if account != nil {
+			sigs[i] = signingSigs[signed]
+			signed++
+		}
 	}
 
 	for i, account := range accounts {
